@@ -165,12 +165,18 @@ var (
 func registerApps() {
 	regOnce.Do(func() {
 		regApps, regIDs = map[string]channel.App{}, map[string]simchannel.AppID{}
-		for _, name := range []string{"APP1", "APP2", "APPX"} {
+		for _, name := range []string{"APP1", "APP2", "APP3", "APP4", "APPX"} {
 			// fixed bytes: ecdsa.GenerateKey is not a deterministic function of its
 			// reader, and parent and child processes must agree on the app ids
 			h1, h2 := sha256.Sum256([]byte(name+"/x")), sha256.Sum256([]byte(name+"/y"))
 			if name == "APP2" { // APP1 and APP2 differ in the second half of their identifiers only: whatever keys apps must take all of it
 				h1 = sha256.Sum256([]byte("APP1/x"))
+			}
+			switch name { // short coordinates (01, 0203) and (0102, 03): identical once written without padding
+			case "APP3":
+				h1, h2 = [32]byte{31: 0x01}, [32]byte{30: 0x02, 31: 0x03}
+			case "APP4":
+				h1, h2 = [32]byte{30: 0x01, 31: 0x02}, [32]byte{31: 0x03}
 			}
 			addr := &simwallet.Address{}
 			if err := addr.UnmarshalBinary(append(h1[:], h2[:]...)); err != nil {
